@@ -4,12 +4,11 @@ CONSTANTS
   Levels = {1}
   Others = {1}
   Variants = {1, 2}
-  MaxLen = 3
+  MaxLen = 2
   MaxForeign = 0
   ForeignRows <- MCForeignSmall
   Selectors <- MCSelNone
-  TargetEcu = "tgt"
-  TargetProps <- MCTargetProps
+  Groups <- MCGroups
   Export = FALSE
   Dev_S18_ResetOnSilentRow = FALSE
   Dev_S19_ClientTracksSessionRead = TRUE
@@ -20,4 +19,5 @@ INVARIANT Y1_RepliesAsRecorded
 INVARIANT Y2_IndependentOfOthers
 INVARIANT ContractHolds
 INVARIANT CursorFollowsRecording
+INVARIANT VerdictIsFunctionOfState
 CHECK_DEADLOCK FALSE
